@@ -207,3 +207,42 @@ def analytic_basis(grid, cfg):
       dl[:nlon, :nlat, a, l] = np.outer(dF, P[m, :, l])
       dt[:nlon, :nlat, a, l] = np.outer(F, dP[m, :, l])
   return Y, dl, dt
+
+
+def spec_mask(cfg, modal_shape) -> np.ndarray:
+  """Specification of the degrees of freedom of a real spherical-harmonic layout, written from the documented layouts (NOT from
+  the code's mask): slot (row, l) is a coefficient iff its zonal wavenumber m satisfies |m| <= l, l < L, |m| < M; the real layout
+  has rows m = 0, +1, -1, +2, -2, ... (2M-1 rows), the fast layout rows m = 0, (unused imaginary part of m = 0), +1, -1, ...
+  (2M rows) followed by zero padding in both directions."""
+  M, L = cfg['M'], cfg['L']
+  out = np.zeros(modal_shape, bool)
+  fast = cfg.get('impl', 'real') == 'fast'
+  for a in range(modal_shape[0]):
+    if fast:
+      if a >= 2 * M or a == 1:
+        continue
+      m = a // 2
+    else:
+      if a >= 2 * M - 1:
+        continue
+      m = (a + 1) // 2
+    for l in range(min(L, modal_shape[1])):
+      if m <= l:
+        out[a, l] = True
+  return out
+
+
+def spec_modal_axes(cfg, modal_shape):
+  """Documented wavenumber tables: signed m per row (0 on unused / padding rows), l per column (0 on padding columns)."""
+  M, L = cfg['M'], cfg['L']
+  fast = cfg.get('impl', 'real') == 'fast'
+  mrow = np.zeros(modal_shape[0], int)
+  for a in range(modal_shape[0]):
+    if fast:
+      if a < 2 * M and a >= 2:
+        mrow[a] = (a // 2) * (1 if a % 2 == 0 else -1)
+    else:
+      if a < 2 * M - 1 and a >= 1:
+        mrow[a] = ((a + 1) // 2) * (1 if a % 2 == 1 else -1)
+  lcol = np.where(np.arange(modal_shape[1]) < L, np.arange(modal_shape[1]), 0)
+  return mrow, lcol
